@@ -221,9 +221,9 @@ PROPS = {
     "C18": _p("model_checking", ["cli"], ["C18."],
               "MC_Cli.Cases: key algorithm x SAN list shapes (none, DNS, IPv4, IPv6, mixed, non-ASCII, trailing dot, IPv4-mapped IPv6); country x common name x organisation classes (default, every PrintableString character, '?', '>', '@', non-ASCII, empty, UTF-8); base-name pairs (default, custom, with dots, sharing a prefix up to the last dot, with spaces) x output directory (existing, missing, nested, second run over a longer first run) ; purpose flags; invalid classes crossed with names/directories; length sweeps (an offending two-octet character after 0..140 ASCII letters in --country-name and --san, long valid values); both back ends' binaries, each run in a fresh directory, written files parsed by the harness's own PEM/DER readers, chains judged by OpenSSL and webpki",
               ops=["CliRun"], exhaustive=True),
-    "C13": _p("model_checking", ["strings"], ["C13."],
-              "every Unicode scalar value as a one-character string through every text constructor of the five types (run-length encoded verdicts, judged element by element in TLA+), every 16-bit unit and every 32-bit value < 0x120000 through the byte-level constructors, hand-built and random byte strings (odd lengths, lone/paired surrogates, > U+10FFFF), random multi-character strings with planted outsiders, placement of sampled accepted values in names / alternative names with decoding, every string kind under every standard attribute type, the complete transfer encoding of every accepted code point block by block (BMPString all; UniversalString plane 0 in quick, all planes in thorough), a fixed list of delicate code points (BOM, non-characters, plane boundaries), the text views (as_str, as_ref, Display, == with str / String and references) on random texts and near misses; distinct by event arguments",
-              ops=["StringRuns", "StringBlock", "StringViews", "StringBytes", "StringMulti", "StringPlace"], exhaustive=False),
+    "C13": _p("model_checking", ["strings", "import"], ["C13."],
+              "every Unicode scalar value as a one-character string through every text constructor of the five types (run-length encoded verdicts, judged element by element in TLA+), every 16-bit unit and every 32-bit value < 0x120000 through the byte-level constructors, hand-built and random byte strings (odd lengths, lone/paired surrogates, > U+10FFFF), random multi-character strings with planted outsiders, placement of sampled accepted values in names / alternative names with decoding, every string kind under every standard attribute type, the complete transfer encoding of every accepted code point block by block (BMPString all; UniversalString plane 0 in quick, all planes in thorough), a fixed list of delicate code points (BOM, non-characters, plane boundaries), the text views (as_str, as_ref, Display, == with str / String and references) on random texts and near misses, the loading path (foreign CA certificates whose name values step outside the alphabet of their tag must be refused); distinct by event arguments",
+              ops=["StringRuns", "StringBlock", "StringViews", "StringBytes", "StringMulti", "StringPlace", "ImportCa"], exhaustive=False),
     "C10": _p("exploration", ["panics", "cert", "time", "csr", "crl", "csrparse", "keys", "strings"], ["C10."],
               "matrix enumerated by MC_Outcome: 4 generation functions x 52 hostile-but-constructible value classes (non-ASCII / NUL / empty / 64 KiB text in String-typed IA5 positions; OID lists [], [1], [3,1], [1,40], [1,39,max], [2,2^64-1], [2,2^64-81] (first unencodable), [2,2^64-82], [2,2^63], later arcs of 2^64-1, 1000 arcs in each of the four OID-carrying positions (product enumerated in TLA+); years -9999, -1, 0, 9999 and offsets that push the UTC year to -1 / 10000; empty and 1 MiB serials / CRL numbers / custom contents; malformed CSR attribute values) each met under six backgrounds of the other parameters (plain, present-but-empty name constraints, CA with path length, ExplicitNoCa, AKI + CRL DP + name constraints, every kind of SAN / KU / EKU / custom extension) plus the 5 documented panics; 19 parser entry points x 6 byte-string classes over valid seeds (rcgen and OpenSSL certificates, CSRs, PKCS#8/SEC1/PKCS#1 keys, SPKIs, PEM texts): substitution of 8 values / truncation / insertion-deletion at every position (strided in quick), TLV-aware mutations with length repair reaching into extension values (12 kinds, including contents with every continuation bit set, non-minimal and over-long sub-identifiers), random bytes; Display/Debug of errors that echo caller input for invalid strings of every length 0..299 ending in 2/3/4-octet characters; coverage predicates require every cell; C10.no_panic is also evaluated on every event of the certificate, time, CSR, CRL, CSR-parsing, key and string pipelines; distinct by (function, class) cell and event arguments",
               ops=None, exhaustive=False),
